@@ -415,20 +415,33 @@ def writer_fn(kind, path, base, content):
 
 
 PAIRS = [("content", "content"), ("content", "atomic"), ("changes", "normalize"), ("atomic", "atomic"), ("content", "changes"), ("normalize", "normalize")]     # quick: the first four (one mixed-route pair: MCP tool vs file_ops/CLI writer)
-W_TEXT = ["===D===\nMETA:\n  TYPE::X\n---\nK::w0\n===END===\n", "===D===\nMETA:\n  TYPE::X\n---\nK::w1\nM::1\n===END===\n"]
+# a writer kind may carry a suffix: ":nobase" = the call carries no base_hash (an unconditional writer of the same tools), ":stale" = it
+# carries the hash of some other text.  Mixed groups: the CAS writer must still never install over a file that stopped hashing to base_hash
+# *because a writer of these tools* replaced it.
+MIXED = [("content", "content:nobase"), ("atomic", "atomic:nobase"), ("changes", "content:nobase"), ("content", "content:stale"), ("normalize", "atomic:nobase")]
+TRIPLES = [("content", "content", "atomic"), ("content", "changes", "normalize"), ("atomic", "atomic", "atomic"), ("content", "atomic", "content:nobase")]
+W_TEXT = ["===D===\nMETA:\n  TYPE::X\n---\nK::w0\n===END===\n", "===D===\nMETA:\n  TYPE::X\n---\nK::w1\nM::1\n===END===\n",
+          "===D===\nMETA:\n  TYPE::X\n---\nK::w2\nM::2\nN::2\n===END===\n"]
 START = "===D===\nMETA:\n  TYPE::X\n---\nK :: start\n"       # non-canonical so that normalize also changes it
 
 
+def _kind(k):
+    kind, _, flag = k.partition(":")
+    return kind, flag
+
+
 def run_schedule(pair, schedule, d):
-    """Replay a schedule (list of writer indices) from scratch; returns (state key, enabled, info)."""
+    """Replay a schedule (list of writer indices) from scratch; returns (state key, enabled, info).  `pair` is a group of 2 or 3 writer kinds."""
     path = os.path.join(d, "t.oct.md")
     for f in os.listdir(d):
         os.unlink(os.path.join(d, f))
     with open(path, "w", encoding="utf-8", newline="") as f:
         f.write(START)
-    base = sha(START)
-    ws = [shim.Stepper(writer_fn(pair[i], path, base, W_TEXT[i] if pair[i] in ("content", "atomic") else f"w{i}"), d, path) for i in (0, 1)]
-    waiting = [False, False]      # blocked on the CAS lock with no progress of the other writer since
+    n = len(pair)
+    R = range(n)
+    bases = {"": sha(START), "nobase": None, "stale": sha("something else\n")}
+    ws = [shim.Stepper(writer_fn(_kind(pair[i])[0], path, bases[_kind(pair[i])[1]], W_TEXT[i] if _kind(pair[i])[0] in ("content", "atomic") else f"w{i}"), d, path) for i in R]
+    waiting = [False] * n      # blocked on the CAS lock with no progress of any other writer since
     try:
         for w in ws:
             w.advance()
@@ -439,12 +452,13 @@ def run_schedule(pair, schedule, d):
             w.release()
             op = w.advance()
             waiting[who] = (op is not None and op.startswith("flock-wait"))
-            waiting[1 - who] = False if not waiting[who] else waiting[1 - who]
             if not waiting[who]:
-                waiting[1 - who] = False
+                for j in R:
+                    if j != who:
+                        waiting[j] = False
         snap = open(path, "rb").read().decode("utf-8") if os.path.exists(path) else None
-        enabled = [i for i in (0, 1) if not ws[i].done and not waiting[i]]
-        blocked = [i for i in (0, 1) if not ws[i].done and waiting[i]]
+        enabled = [i for i in R if not ws[i].done and not waiting[i]]
+        blocked = [i for i in R if not ws[i].done and waiting[i]]
         key = (tuple((len(w.ops), w.done, (w.pending or "").split("\t")[0]) for w in ws), hashlib.sha1(repr(snap).encode()).hexdigest(), tuple(waiting))
         info = dict(snap=snap, results=[w.result for w in ws], raised=[w.raised for w in ws], done=[w.done for w in ws], ops=[list(w.ops) for w in ws],
                     blocked=blocked, logs=[w.log() for w in ws] if all(w.done for w in ws) else None,
@@ -465,18 +479,53 @@ def window(log, target):
     return "-".join(("T." if e["path"] == target else "tmp." if e["path"].endswith(".tmp") else "") + e["op"] for e in ops[last_read + 1: ren[-1]])
 
 
-def judge_final(pair, info, target):
+def install_order(info, schedule):
+    """Global order of the renames onto the target, from the schedule (who moved at each step) and each writer's visible ops."""
+    idx = [0] * len(info["ops"])
+    order = []
+    for who in schedule:
+        ops = info["ops"][who]
+        if idx[who] < len(ops) and ops[idx[who]].startswith("rename\t"):
+            order.append(who)
+        idx[who] += 1
+    return order
+
+
+def judge_final(pair, info, target, schedule=None):
     out = []
     res = info["results"]
+    n = len(res)
+    R = range(n)
+    flags = [_kind(k)[1] for k in pair]
     if any(info["raised"]):
         out.append((f"writer-raised", str(info["raised"]), "envelopes"))
         return out
     st = [(r or {}).get("status") for r in res]
-    succ = [i for i in (0, 1) if st[i] == "success"]
+    succ = [i for i in R if st[i] == "success"]
+    cas_succ = [i for i in succ if flags[i] == ""]
     snap = info["snap"]
-    if len(succ) == 2:
-        wins = [window(info["logs"][i], target) for i in (0, 1)]
+    if len(cas_succ) >= 2:
+        wins = [window(info["logs"][i], target) for i in cas_succ] if info.get("logs") and all(info["logs"]) else None
         out.append((f"both-writers-succeed:windows={wins}", f"final={snap!r}"[:200], "at most one writer holding the same base_hash succeeds"))
+    for i in succ:
+        if flags[i] == "stale":
+            out.append(("writer-with-a-stale-base_hash-succeeded", f"final={snap!r}"[:200], "E_HASH"))
+    order = install_order(info, schedule) if schedule is not None else None
+    if order is not None:
+        # "changes the file only if the file's content hashes to base_hash at the moment the new content is installed": the file
+        # hashes to base_hash exactly until the first install by anybody
+        for i in cas_succ:
+            if i in order and order.index(i) > 0 and len(cas_succ) < 2:
+                out.append((f"cas-writer-installed-over-another-writers-text:{pair[order[0]]}-installed-first", f"installs in order {order}, final={snap!r}"[:240],
+                            "E_HASH: the file no longer hashed to base_hash when the new content was installed"))
+        for i in R:
+            if st[i] != "success" and i in order:
+                out.append(("writer-that-reported-an-error-had-installed-its-text", f"installs in order {order} statuses={st}", "a failed call leaves the file as it was"))
+        if order and snap is not None:
+            last = order[-1]
+            h = (res[last] or {}).get("canonical_hash")
+            if st[last] == "success" and sha(snap) != h:
+                out.append(("file-is-not-the-last-installers-text", f"installs in order {order} final={snap!r}"[:300], "file == text of the writer that installed last"))
     if len(succ) == 1:
         w = succ[0]
         h = (res[w] or {}).get("canonical_hash")
@@ -484,7 +533,9 @@ def judge_final(pair, info, target):
             out.append(("file-is-not-the-successful-writers-text", f"final={snap!r} hash={h}"[:300], "file == successful writer's canonical text"))
     if len(succ) == 0 and snap != START:
         out.append(("no-writer-succeeded-but-file-changed", f"{snap!r}"[:200], "file unchanged"))
-    for i in (0, 1):
+    for i in R:
+        if flags[i] == "nobase" and st[i] != "success":
+            out.append(("unconditional-writer-failed", str(res[i])[:200], "success"))
         if st[i] == "error":
             code = ((res[i] or {}).get("errors") or [{}])[0].get("code") if isinstance((res[i] or {}).get("errors"), list) else "error"
             if code not in ("E_HASH", "error", None) and "Hash mismatch" not in str(res[i]):
@@ -515,12 +566,12 @@ def check_pair(case) -> Res:
         seen[key] = sched
         if all(info["done"]):
             finals.add((tuple((r or {}).get("status") for r in info["results"]), hashlib.sha1(repr(info["snap"]).encode()).hexdigest()))
-            for desc, obs, exp in judge_final(pair, info, target):
-                k = f"schedule:{pair[0]}+{pair[1]}:{desc}"
+            for desc, obs, exp in judge_final(pair, info, target, sched):
+                k = f"schedule:{'+'.join(pair)}:{desc}"
                 viol.setdefault(k, dict(descriptor=k, case=dict(pair=list(pair), schedule=sched), observed=obs, expected=exp))
             continue
         if not enabled:
-            k = f"schedule:{pair[0]}+{pair[1]}:deadlock"
+            k = f"schedule:{'+'.join(pair)}:deadlock"
             viol.setdefault(k, dict(descriptor=k, case=dict(pair=list(pair), schedule=sched), observed=f"blocked={info['blocked']} ops={info['ops']}", expected="progress"))
             continue
         for w in enabled:
@@ -532,6 +583,9 @@ def check_pair(case) -> Res:
 
 def check_pair_res(case):
     return check_pair(case)[0]
+
+
+check_pair_res.case_timeout = 3600.0      # one case = the whole schedule graph of a writer group (a triple: ~19 k states, ~36 k executions)
 
 
 # ------------------------------------------------------------------ (c) asyncio tasks
@@ -654,7 +708,7 @@ def run(ctx):
     kinds = ["dry_content", "dry_content_lenient", "dry_changes", "dry_normalize", "stale_content", "unparseable_content", "both_content_and_changes", "bad_extension", "changes_absent"]
     ctx.explore("dry_and_failed_calls.tree", [(k, l, ex) for k in kinds for l in ("present", "missing", "nested") for ex in (False, True)], check_tree_untouched, chunk=6)
     # (b) schedules
-    pairs = PAIRS[:4] if ctx.quick else PAIRS
+    pairs = (PAIRS[:4] + MIXED[:3]) if ctx.quick else (PAIRS + MIXED + TRIPLES)      # a triple is ~19 k states / ~10 min on one core
     total_states = total_trans = 0
     finals_all = {}
     sts = ctx.explore("schedules.two_processes", [list(p) for p in pairs], check_pair_res, chunk=1)
